@@ -260,6 +260,15 @@ def run(ck):
     ok = bool(tests) and all(any(cfg.edge_dominates(g, b.id, 0 if b.term.get("neg") else 1, e) for b in tests) for e in na)
     ck.ob("C10-R3", "route/405-needs-methods", ok and all((e["args"][0].get("v") == SM) for e in na), na[0].loc, g,
           "sendMethodNotAllowed(supportedMethods) only on the !supportedMethods.empty() edge")
+    # 404 / not-found handler only after the probe of the other methods came back empty (405 takes precedence)
+    nf = [e for e in g.events("call") if terminal(e) in ("notfound", "404")]
+    ck.require(nf, "not-found terminals not found in Router::route")
+    for e in nf:
+        okp = any(cfg.edge_dominates(g, b.id, 1 if b.term.get("neg") else 0, e) for b in tests)
+        ck.ob("C10-R3", "route/%s-only-after-405-probe" % terminal(e), okp, e.loc, g,
+              "reached only on the supportedMethods.empty() edge" if okp else
+              "the not-found answer at line %s can be given before the other methods' trees were probed: a request that another method would match "
+              "gets 404 instead of 405 with Allow" % e.get("l"))
     # building the list: skip own method, push only when the other tree matches
     pb_ = [e for e in g.calls(lambda e: e.base_callee() == "std::vector::push_back" and (e.get("recv") or {}).get("v") == SM)]
     ck.require(len(pb_) == 1, "supportedMethods.push_back sites: %d" % len(pb_))
